@@ -379,6 +379,17 @@ func runRandom(t testing.TB, res *vh.Result, src string, seed int64) []map[strin
 			r.submit(id, rd.Intn(25) == 0)
 		case k < 72:
 			r.blockOf("empty", 0, "", 0)
+		case k < 75:
+			// two completed fallbacks in one block (refused by the chain when the deposit cannot pay for both)
+			a, b := 1+rd.Intn(n), 1+rd.Intn(n)
+			fa, fb := w.completed(w.reqs[a-1].fallback), w.completed(w.reqs[b-1].fallback)
+			if a != b && w.bc.VerifyTx(fa) == nil && w.bc.VerifyTx(fb) == nil {
+				if _, err := r.block("fallbacks", []int{a, b}, fa, fb); err != nil {
+					res.Inc("notarypool_random_blocks_refused", 1)
+				}
+			} else {
+				r.blockOf("empty", 0, "", 0)
+			}
 		case k < 84:
 			id := 1 + rd.Intn(n)
 			if w.bc.VerifyTx(w.completed(w.reqs[id-1].fallback)) == nil {
